@@ -35,6 +35,12 @@ def requests(tier, rng):
     n_rand = 4 if tier == "quick" else 60
     for (s, seed) in kats():
         L.append("sign::%s::keypair %s -" % (s, seed))
+    # boundary-seeking: seeds for which one secret polynomial needs a third SHAKE-256 block (eta = 4 sets, ~1 seed in 10^4)
+    from .. import pyspec as S
+    for s in ("lvl3", "ml_dsa_65"):
+        xi = S.find_keygen_seed_eta_refill(S.P(s), 2, rng)
+        if xi is not None:
+            L.append("sign::%s::keypair %s -" % (s, xi.hex()))
     for s in SETS:
         seeds = ["00" * 32, "ff" * 32] + [bytes(rng.randrange(256) for _ in range(32)).hex() for _ in range(n_rand)]
         for seed in seeds:
